@@ -2,10 +2,11 @@
 # Run once after a fresh restore (offline): build the hook-enabled Icinga objects, the harness,
 # the Coq development and the extracted model driver.  Everything lands under /verif/build (git-ignored).
 set -e
-cd /verif
+cd "$(dirname "$0")"
 tools/build_icinga.sh
 python3 tools/build_vdrive.py
 python3 tools/srcfacts.py
-(cd coq && coq_makefile -f _CoqProject -o Makefile >/dev/null 2>&1 && timeout 3000 make -k -j16 2>&1 | tail -5)
+tools/gen_coqproject.sh
+(cd coq && timeout 3000 make -k -j16 2>&1 | tail -5)
 bash tools/build_vmodel.sh
 echo "setup done"
